@@ -73,7 +73,69 @@ pub fn check(id: &str, tier: &str, seed: u64) -> Option<i32> {
                 vec![],
             ))
         }
+        "C05" => {
+            let mut g = crash_profile();
+            g.max_ops = if thorough { 40 } else { 22 };
+            let cases = if thorough { 8000 } else { 640 };
+            let out = explore_generic(
+                || crate::gen::case(&g),
+                cases,
+                seed,
+                if thorough { 400 } else { 150 },
+                |c: &crate::spec::Case| crate::crash::run(c, thorough),
+                crate::crash::nontrivial,
+                &crate::runner::load_known("C05"),
+                crate::runner::summarize_case,
+                600_000,
+            );
+            let images = out.hist.get("crash.images").copied().unwrap_or(0);
+            Some(finish_generic(
+                "C05",
+                "crash",
+                tier,
+                seed,
+                "fault_enumeration",
+                "generated maintenance-heavy histories (create, writes, rotate, flush, leveled/major/move-down/pull-down compaction, clear, drop_range, ingestion, blob relocation, reopen) on standard and blob trees run under the recording FS shim; ENUMERATED: every prefix of the recorded mutation sequence (cap 600/1500 mutations per history, beyond it every 3rd), a torn version (1, half, len-1 bytes) of every multi-byte write, and for each the persistence outcomes {everything issued on disk; only fsynced file content and only directory entries whose directory was fsynced afterwards; random prefix of the unsynced entry ops per directory + random prefix of unsynced writes per file; unsynced entry ops independently kept/lost}. Oracle: Config::open on the materialised image returns Ok and the logical dump (every key's value and seqno, scan consistent with gets) equals the model's durable content before or after the interrupted op, exactly the post-op content when the cut lies at an op boundary, and a second open yields the same dump. Self-check per case: replaying the full trace reproduces the real directory byte for byte. evaluations = histories; the number of images is in coverage.images. Non-trivial = an image taken inside an op that changes the durable logical content. Distinct = hash of the case.",
+                &["persistence model: file content durable up to the file's last fsync, directory entry ops durable once their directory was fsynced afterwards; the tree's own directory entry is durable; no reordering inside one file beyond prefix loss and a torn last write", "all file-system effects go through the interposed libc symbols (checked per case by the byte-for-byte trace replay)", "bounded sizes; not a proof"],
+                out,
+                json!({"images": images}),
+                vec![],
+            ))
+        }
         _ => None,
+    }
+}
+
+fn crash_profile() -> crate::gen::GenProfile {
+    use crate::gen::{BlobMode, GenProfile, Weights};
+    let mut w = Weights::base();
+    w.insert = 22;
+    w.remove = 6;
+    w.batch = 3;
+    w.rotate = 3;
+    w.flush = 3;
+    w.flush_active = 14;
+    w.leveled = 8;
+    w.major = 4;
+    w.movedown = 3;
+    w.pulldown = 4;
+    w.reopen = 3;
+    w.ingest = 4;
+    w.drop_range = 3;
+    w.clear = 2;
+    w.remove_weak = 1;
+    GenProfile {
+        max_ops: 14,
+        min_keys: 4,
+        max_keys: 14,
+        blob: BlobMode::Either,
+        w,
+        n_cfgs: 1,
+        weak_keys_max: 2,
+        multi_gen: false,
+        verdicts: false,
+        tiny: true,
+        big_values: false,
     }
 }
 
@@ -101,6 +163,10 @@ pub fn replay(id: &str, path: &Path) -> Option<i32> {
         "C19" => {
             let case: crate::fifo::FifoCase = serde_json::from_value(v["case"].clone()).ok()?;
             Some(report(crate::fifo::run(&case)))
+        }
+        "C05" => {
+            let case: crate::spec::Case = serde_json::from_value(v["case"].clone()).ok()?;
+            Some(report(crate::crash::run(&case, true)))
         }
         _ => None,
     }
